@@ -29,7 +29,7 @@ func writeEvidence(prop string, ev *Evidence) {
 
 func toolFailure(prop, tier string, seed int, t0 time.Time, msg string) int {
 	ev := &Evidence{PropertyID: prop, Tier: tier, Seed: seed, Level: "proof", WallS: time.Since(t0).Seconds(), Violations: 0,
-		Coverage: map[string]any{"obligations": 0, "discharged": 0, "checker_cmd": "gvc check -prop " + prop, "trusted_base": []string{}, "explanation": "TOOL FAILURE: " + msg},
+		Coverage:    map[string]any{"obligations": 0, "discharged": 0, "checker_cmd": "gvc check -prop " + prop, "trusted_base": []string{}, "explanation": "TOOL FAILURE: " + msg},
 		Assumptions: []string{"tool failure: nothing was checked"}}
 	writeEvidence(prop, ev)
 	fmt.Println("gvc: TOOL FAILURE (exit 2):", msg)
